@@ -6,7 +6,10 @@ ROOT = os.path.dirname(os.path.dirname(os.path.abspath(__file__)))
 
 # id -> (level, technique, level text, level note, design ref)
 CHECKS = {
-    "C10": ("exploration", "runtime monitoring: panic/process-death monitor (child per batch, case replayed alone to confirm), nesting-depth monitor (recording assembler), allocation monitor (runtime.MemStats.TotalAlloc delta against a budget-relative bound), over random, mutated and structure-aware hostile inputs to the five decoders under many configurations and targets, to the selector compiler and the walks of what compiles, and to ParsePath; thorough tier also runs under the race build for checkptr",
+    "C17": ("exploration", "runtime monitoring: histories of storage operations (incl. overlapping stream lifetimes) checked online against a write-once map model; containment of the filesystem store observed externally with strace (every path argument of every file syscall inside a history) and with sentinel files around the base directory",
+            "Held on the histories observed for memstore, cidlink.Memory and fsstore (default and hex-escaped, three shardings) over a hostile key pool. Sampling of histories.",
+            "Trusted: the map model, strace as observer. Identity escaping is not exercised.", "DESIGN.md §2 C17"),
+    "C10": ("exploration", "runtime monitoring: panic/process-death monitor (child per batch, case replayed alone to confirm), nesting-depth monitor (recording assembler), allocation monitor (runtime.MemStats.TotalAlloc delta against a budget-relative bound), over random, mutated and structure-aware hostile inputs to the five decoders under many configurations and targets, to the selector compiler and the walks of what compiles, and to ParsePath",
             "Held on the executions observed: no panic, no process death, depth and allocation within the configured bounds. Termination is a per-batch watchdog (inconclusive when it fires), so 'terminates' is bounded progress only.",
             "Trusted: allocation constants calibrated on the unchanged tree (>=4x headroom); the bound is relative to the configured budget.", "DESIGN.md §2 C10"),
     "C04": ("exploration", "runtime monitoring: differential oracle — the encoder's output is read by an independent DAG-JSON reader (encoding/json token stream + reserved-form rules) and by the library decoder, both compared with the abstract value; encodings compared across insertion orders and implementations; failed decodes interleaved",
